@@ -37,7 +37,7 @@ Definition frepr_of (tbl : list (N * bytes)) (b : N) : bytes :=
   match find (fun e => fst e =? b) tbl with Some e => snd e | None => [] end.
 
 Definition pymodel_ok (c : c13_case) : bool :=
-  forallb (fun x => match x with (proto, ds, b) => beqb (payload_rL (frepr_of (p_reprs c)) (proto, ds)) b end) (p_py c).
+  forallb (fun x => match x with (proto, ds, b) => beqb (payload_rL4 (frepr_of (p_reprs c)) (proto, ds)) b end) (p_py c).
 
 Definition c13_verdict (c : c13_case) : N :=
   if negb (pymodel_ok c) then 7 else
